@@ -455,6 +455,66 @@ impl<'a> VisitMut for Rw<'a> {
             }
         }
 
+        // R15: `match E { "a" | "b" => X, "c" => Y, _ => Z }` over string literals (Verus accepts such patterns but knows nothing about
+        // them) -> `{ let __vx_scrut: &str = E; if vx_str_is(__vx_scrut, "a") || vx_str_is(__vx_scrut, "b") { X } else if .. else { Z } }`.
+        // A match with a string-literal pattern that is not of this shape (guards, a binding catch-all) is refused (undecided).
+        if let Expr::Match(m) = e {
+            fn lits(p: &Pat, out: &mut Vec<syn::LitStr>) -> bool {
+                match p {
+                    Pat::Lit(l) => { if let Lit::Str(s) = &l.lit { out.push(s.clone()); true } else { false } }
+                    Pat::Or(o) => o.cases.iter().all(|c| lits(c, out)),
+                    Pat::Paren(pp) => lits(&pp.pat, out),
+                    _ => false,
+                }
+            }
+            fn mentions_strlit(p: &Pat) -> bool {
+                match p {
+                    Pat::Lit(l) => matches!(l.lit, Lit::Str(_)),
+                    Pat::Or(o) => o.cases.iter().any(mentions_strlit),
+                    Pat::Paren(pp) => mentions_strlit(&pp.pat),
+                    _ => false,
+                }
+            }
+            if m.arms.iter().any(|a| mentions_strlit(&a.pat)) {
+                let n = m.arms.len();
+                // the catch-all: `_` or a plain binding `k` (then bound to the scrutinee in the final else)
+                let catch_ident: Option<Ident> = match &m.arms[n - 1].pat {
+                    Pat::Ident(pi) if pi.subpat.is_none() && pi.by_ref.is_none() && pi.mutability.is_none() => Some(pi.ident.clone()),
+                    _ => None,
+                };
+                let mut ok = n >= 2 && (matches!(m.arms[n - 1].pat, Pat::Wild(_)) || catch_ident.is_some()) && m.arms.iter().all(|a| a.guard.is_none());
+                let mut conds: Vec<Expr> = vec![];
+                if ok {
+                    for a in &m.arms[..n - 1] {
+                        let mut ls = vec![];
+                        if !lits(&a.pat, &mut ls) || ls.is_empty() { ok = false; break; }
+                        let mut c: Option<Expr> = None;
+                        for l in ls {
+                            let t: Expr = parse_quote!(vx_str_is(__vx_scrut, #l));
+                            c = Some(match c { None => t, Some(p) => parse_quote!(#p || #t) });
+                        }
+                        conds.push(c.unwrap());
+                    }
+                }
+                if ok {
+                    let mut chain: Expr = {
+                        let b = &m.arms[n - 1].body;
+                        match &catch_ident { Some(id) => parse_quote!({ let #id = __vx_scrut; #b }), None => parse_quote!({ #b }) }
+                    };
+                    for (a, c) in m.arms[..n - 1].iter().zip(conds.iter()).rev() {
+                        let b = &a.body;
+                        chain = parse_quote!(if #c { #b } else #chain);
+                    }
+                    let scrut = &m.expr;
+                    let ne: Expr = parse_quote!({ let __vx_scrut: &str = #scrut; #chain });
+                    self.logit("R15", line, "match over string literals".to_string(), norm(&ne.to_token_stream()));
+                    *e = ne;
+                } else {
+                    self.errors.push(format!("line {line}: match with string-literal patterns of a shape R15 does not cover (Verus gives such patterns no meaning): {}", norm(&m.to_token_stream()).chars().take(200).collect::<String>()));
+                }
+            }
+        }
+
         // R5: formatting macros
         if let Expr::Macro(em) = e {
             if let Some(r) = self.macro_rewrite(&em.mac) {
@@ -791,6 +851,72 @@ fn eliminate_continue(stmts: &[Stmt]) -> Option<Vec<Stmt>> {
                 return Some(out);
             }
         }
+        // `let PAT = match E { Pi => Vi, Pj => { Tj; continue; } }; REST`  becomes  `match E { Pi => { let PAT = Vi; REST }, Pj => { Tj } }`
+        // and `let PAT = E else { T; continue; }; REST`  becomes  `if let PAT = E { REST } else { T }`  (REST once per value arm)
+        if let Stmt::Local(loc) = &stmts[i] {
+            if stmts_have_continue(&stmts[i..=i]) {
+                if stmts_have_continue(&stmts[..i]) { return None; }
+                let rest = &stmts[i + 1..];
+                let rest2: Vec<Stmt> = if stmts_have_continue(rest) { eliminate_continue(rest)? } else { rest.to_vec() };
+                // what an arm / else block does before its closing `continue;` (None: not of that shape)
+                fn before_continue(e: &Expr) -> Option<Vec<Stmt>> {
+                    match e {
+                        Expr::Continue(c) if c.label.is_none() => Some(vec![]),
+                        Expr::Block(b) => {
+                            if let Some(Stmt::Expr(Expr::Continue(c), _)) = b.block.stmts.last() {
+                                let head = &b.block.stmts[..b.block.stmts.len() - 1];
+                                if c.label.is_none() && !stmts_have_continue(head) { return Some(head.to_vec()); }
+                            }
+                            None
+                        }
+                        _ => None,
+                    }
+                }
+                let init = loc.init.as_ref()?;
+                if let Some((_, div)) = &init.diverge {
+                    let t = before_continue(div)?;
+                    let mut hc = HasContinue(false);
+                    syn::visit::Visit::visit_expr(&mut hc, &init.expr);
+                    if hc.0 { return None; }
+                    let pat = match &loc.pat { Pat::Type(pt) => (*pt.pat).clone(), p => p.clone() };
+                    let ex = &init.expr;
+                    let new_if: Expr = parse_quote!(if let #pat = #ex { #(#rest2)* } else { #(#t)* });
+                    let mut out = stmts[..i].to_vec();
+                    out.push(Stmt::Expr(new_if, None));
+                    return Some(out);
+                }
+                if let Expr::Match(m) = &*init.expr {
+                    let mut hc = HasContinue(false);
+                    syn::visit::Visit::visit_expr(&mut hc, &m.expr);
+                    if hc.0 { return None; }
+                    let mut arms: Vec<Arm> = vec![];
+                    for a in &m.arms {
+                        let mut ha = HasContinue(false);
+                        syn::visit::Visit::visit_expr(&mut ha, &a.body);
+                        if let Some((_, g)) = &a.guard { syn::visit::Visit::visit_expr(&mut ha, g); }
+                        let mut na = a.clone();
+                        if ha.0 {
+                            let t = before_continue(&a.body)?;
+                            na.body = Box::new(parse_quote!({ #(#t)* }));
+                        } else {
+                            let mut l2 = loc.clone();
+                            let v = &a.body;
+                            l2.init = Some(LocalInit { eq_token: init.eq_token, expr: Box::new(parse_quote!(#v)), diverge: None });
+                            let ls = Stmt::Local(l2);
+                            na.body = Box::new(parse_quote!({ #ls #(#rest2)* }));
+                        }
+                        na.comma = Some(Default::default());
+                        arms.push(na);
+                    }
+                    let scrut = &m.expr;
+                    let new_match: Expr = parse_quote!(match #scrut { #(#arms)* });
+                    let mut out = stmts[..i].to_vec();
+                    out.push(Stmt::Expr(new_match, None));
+                    return Some(out);
+                }
+                return None;
+            }
+        }
         if stmts_have_continue(&stmts[i..=i]) { return None; }
     }
     None
@@ -801,7 +927,7 @@ impl VisitMut for ContinueElim {
         if let Expr::ForLoop(f) = e {
             if stmts_have_continue(&f.body.stmts) {
                 if let Some(ns) = eliminate_continue(&f.body.stmts) {
-                    self.log.push(json!({"rule": "R13", "src_line": line_of(f.for_token.span), "before": "`if C { ..; continue; } REST` in a for body", "after": "`if C { .. } else { REST }`"}));
+                    self.log.push(json!({"rule": "R13", "src_line": line_of(f.for_token.span), "before": "`if C { ..; continue; } REST` / `let P = match E { .., Q => { ..; continue; } }; REST` / `let P = E else { ..; continue; }; REST` in a for body", "after": "`if C { .. } else { REST }` / `match E { .. => { let P = ..; REST }, Q => { .. } }` / `if let P = E { REST } else { .. }`"}));
                     f.body.stmts = ns;
                 }
             }
@@ -896,6 +1022,8 @@ impl VisitMut for OptDesugar {
                     ("ok_or_else", 0) => Some(parse_quote!(#recv.ok_or(#body))),
                     ("unwrap_or_else", 0) => Some(parse_quote!(#recv.unwrap_or(#body))),
                     ("or_else", 0) => Some(parse_quote!(match #recv { Some(__vx_v) => Some(__vx_v), None => #body })),
+                    // Ordering::then_with(|| B): B decides only when the receiver says Equal
+                    ("then_with", 0) => Some(parse_quote!(match #recv { Ordering::Equal => #body, __vx_o => __vx_o })),
                     ("map_err", 1) => { let p = &c.inputs[0]; Some(parse_quote!(match #recv { Ok(__vx_v) => Ok(__vx_v), Err(#p) => Err(#body) })) }
                     ("filter", 1) => { let p = &c.inputs[0]; Some(parse_quote!(match #recv { Some(__vx_v) => { let #p = &__vx_v; if #body { Some(__vx_v) } else { None } } None => None })) }
                     _ => None,
